@@ -136,7 +136,7 @@ theorem startSrc_spec (cfg : Cfg) (src : Src) (ctx : Option Nat) (g : G) :
     | queued jid k g' => rw [hs] at h; simp [h.1, h.2.1, specFire]
   | sharedReady r => simp [startSrc, specSrc]
   | sharedContract p f => simp [startSrc, specSrc, specFire]
-  | sharedKept p f pre =>
+  | sharedKept e p f pre =>
     cases h : g.isSet p pre <;> simp [startSrc, h, specSrc, specFire]
 
 end Yaclib.Pipeline
